@@ -5,6 +5,7 @@ package router
 import (
 	"fmt"
 	"net/netip"
+	"os"
 	"strings"
 	"testing"
 	"time"
@@ -15,11 +16,23 @@ import (
 	"github.com/IrineSistiana/mosproxy/internal/zzverif/report"
 )
 
+// c19AsC07: the same exploration (hits from clients of two groups and of none, interleaved with background refreshes and
+// clock ticks) run as a part of C07.
+var c19AsC07 = os.Getenv("VERIF_PROP") == "C07"
+
 func c19Scenario(c *choice.Ctx, rep *report.R, depth int) {
 	own := env.InstallOwn(0xA5, vRace)
 	defer env.UninstallOwn()
 	var trace []string
 	fail := func(sig, msg string) {
+		if c19AsC07 {
+			// as a part of C07: only what C07 states (a hit is the entry stored for that question and client group)
+			if sig != "wrong-entry" && sig != "bad-hit" && sig != "ownership" {
+				return
+			}
+			rep.Violate("C07:with-refresh:"+sig, msg+"\n  events: "+strings.Join(trace, " "), map[string]any{"Choices": c.Choices()})
+			return
+		}
 		rep.Violate("C19:"+sig, msg+"\n  events: "+strings.Join(trace, " "), map[string]any{"Choices": c.Choices()})
 	}
 	cfg := c03Config("forward")
@@ -278,7 +291,7 @@ func c19ManyKeys(rep *report.R, n int) {
 }
 
 func TestVerifC19(t *testing.T) {
-	rep := report.New("C19 prefetch single-flight")
+	rep := report.New(map[bool]string{false: "C19 prefetch single-flight", true: "C07 cache keys under background refresh"}[c19AsC07])
 	defer rep.Write()
 	depth := report.ParamInt("DEPTH", 6)
 	bound := report.ParamInt("FAULTS", 2)
@@ -288,7 +301,7 @@ func TestVerifC19(t *testing.T) {
 	bubble(t, func() {
 		st := runExplore(t, rep, bound, func(c *choice.Ctx) { c19Scenario(c, rep, depth) })
 		rep.Count("executions", st.Executions)
-		if sh, _ := report.Shard(); sh == 0 && report.ReplayFile() == nil {
+		if sh, _ := report.Shard(); sh == 0 && report.ReplayFile() == nil && !c19AsC07 {
 			hmu.Lock()
 			c19ManyKeys(rep, report.ParamInt("MANYKEYS", 100))
 			hmu.Unlock()
